@@ -218,6 +218,31 @@ pub fn arena_byte(alloc_no: u64, i: usize) -> u8 {
     33 + (((alloc_no as usize).wrapping_mul(131).wrapping_add(i.wrapping_mul(7)).wrapping_add(i >> 8)) % 90) as u8
 }
 
+/// the text allocated through `alloc_str` for allocation `alloc_no` with a byte length of `len`: every other allocation
+/// mixes two- and three-byte characters in (the number of chars differs from the number of bytes), padded with ASCII
+pub fn arena_text(alloc_no: u64, len: usize) -> String {
+    if alloc_no % 2 == 0 {
+        return (0..len).map(|i| arena_byte(alloc_no, i) as char).collect();
+    }
+    let mut s = String::with_capacity(len);
+    let mut i = 0usize;
+    while s.len() < len {
+        let left = len - s.len();
+        let c = match (alloc_no as usize + i) % 3 {
+            0 if left >= 2 => '\u{e9}',
+            1 if left >= 3 => '\u{20ac}',
+            _ => arena_byte(alloc_no, i) as char,
+        };
+        s.push(c);
+        i += 1;
+    }
+    s
+}
+
+/// the bytes an arena payload of allocation `alloc_no` must hold (odd lengths went through `alloc_str`)
 pub fn arena_ok(alloc_no: u64, data: &[u8]) -> bool {
+    if data.len() % 2 == 1 {
+        return data == arena_text(alloc_no, data.len()).as_bytes();
+    }
     data.iter().enumerate().all(|(i, &b)| b == arena_byte(alloc_no, i))
 }
